@@ -112,6 +112,17 @@ def group_segment_can_be_empty(pp):
     return any(t and t[0].startswith('x') and all(tok_can_be_empty(u) for u in t) for t in top_tokens(pp))
 
 
+def negated_group_lists_dot(pp):
+    """a segment that starts with `!(...)` one of whose alternatives starts with a written dot"""
+    for toks in top_tokens(pp):
+        if toks and toks[0].startswith('xN('):
+            for alt in split_top(toks[0][3:-1], ';'):
+                first = split_top(alt, '.')[0] if alt else ''
+                if first in ('l2e', 'e2e'):
+                    return True
+    return False
+
+
 def gtw_seq(toks):
     if not toks or not toks[0].startswith('x'):
         return False
@@ -202,6 +213,8 @@ def run_spec_search(ctx, rng, ntrees, npats, on_case=None, cfgs=CFGS, tree_size=
                         if extra:
                             if all(hid(x) for x in extra) and group_then_wild(pp):
                                 kid_x = 'C03-group-then-wild'
+                            elif c.get('dot') and all(any(sg in ('.', '..') for sg in x.split('/')) for x in extra) and negated_group_lists_dot(pp):
+                                kid_x = 'C03-negated-group-dotted-alternative'
                             elif all(hid(x) for x in extra) and star_then_wild(pp):
                                 kid_x = 'C03-star-guard-inside-optional'
                             elif group_segment_can_be_empty(pp):
